@@ -121,11 +121,23 @@ def run(prog, chk):
                 raise AnalysisBroken('mark/unmark roles not resolved by effect nor by name')
             chk.ob('R06.6', c[0], c[0].ln, False, '%s no longer %ss the measured flag of its argument' % (nm, what), key='role-effect:' + nm)
             base.append((c[0], [0]))
+    # the allocation role is whoever calls the simulator's allocator, whether or not it also writes the flag itself
+    for f in evfns:
+        if f not in alloc_fns and any(n['k'] == 'mcall' and n['callee'] == allocname for n in SX.walk(f.body, into_lambdas=False)):
+            alloc_fns.append(f)
     if not alloc_fns:
         raise AnalysisBroken('allocation role not resolved')
+    for f in alloc_fns:
+        res = _ev_alloc_table(prog, R, f, rec, flag, vec, sim)
+        if res[0] is None:
+            chk.note('evaluator allocation table not evaluated: %s' % res[1])
+        else:
+            chk.ob('R06.6', f, f.ln, not res[0],
+                   'a handed-out qubit index is unmeasured in the evaluator\'s bookkeeping, for a recycled and for a fresh index (%d abstract states); counterexamples: %s' % (res[1], res[0][:3]),
+                   key='alloc-table:' + f.short)
     MARK = ArgSummary(prog, mark_base, evfns, modulo_bounds=True)
     UNMARK = ArgSummary(prog, unmark_base, evfns, modulo_bounds=True)
-    chk.count('flag writer functions', len(writers), 3)
+    chk.count('flag writer functions', len(writers), 2)
 
     # ---- evaluator call sites -------------------------------------------------------------
     n_gate = n_meas = n_reset = n_alloc = 0
@@ -252,6 +264,40 @@ def run(prog, chk):
                             else g.must_follow(g.entry, ws + resize))
         chk.ob('R06.5', f, f.ln, ok, 'simulator %s must %s the measured flag of its qubit on every normal path' % (f.short, 'set' if want else 'clear'),
                key='sim-flag:%s' % f.short)
+
+
+def _ev_alloc_table(prog, R, f, rec, flag, vec, sim):
+    """abstract evaluation of the evaluator's allocation function: recycled index (free list non-empty, stale measured flag and
+    stale last-measurement) and fresh index (free list empty)"""
+    from ..kabs import Interp, Obj, Unsupported, OutOfRange
+    free = [x['name'] for x in R.ev['fields'] if x['type'] == 'std::vector<int>' and 'free' in x['name'].lower()]
+    last = [x['name'] for x in R.ev['fields'] if x['type'] == 'std::vector<int>' and 'last' in x['name'].lower()]
+    if len(free) != 1 or len(last) != 1:
+        return None, 'free list / last-measurement vector not resolved'
+    free, last = free[0], last[0]
+    simf = R.ev_sim_field
+    bad, n = [], 0
+    for recycled in (True, False):
+        for nq in (1, 2):
+            n += 1
+            qs = [Obj({'name': 'old%d' % i, flag: True}) for i in range(nq)]
+            this = Obj({free: [nq - 1] if recycled else [], vec: qs, last: [1] * nq, simf: Obj()})
+            models = {'reset': lambda it, e, env: None, SX.short(sim['allocate'].name): lambda it, e, env, nq=nq: nq}
+            try:
+                idx = Interp(prog, models, max_steps=4000).call_fn_env(f, ['fresh'], {'this': this})
+            except OutOfRange as ex:
+                bad.append('%s nq=%d: %s' % ('recycled' if recycled else 'fresh', nq, ex))
+                continue
+            except Unsupported as ex:
+                return None, str(ex)
+            want = nq - 1 if recycled else nq
+            ok = idx == want and len(this[vec]) > idx and isinstance(this[vec][idx], Obj) and this[vec][idx].get(flag) is False and \
+                len(this[last]) > idx and this[last][idx] == -1 and (not recycled or this[free] == [])
+            if not ok:
+                bad.append('%s nq=%d: index %r, flag %r, last %r' % ('recycled' if recycled else 'fresh', nq, idx,
+                                                                      this[vec][idx].get(flag) if isinstance(idx, int) and idx < len(this[vec]) else '?',
+                                                                      this[last][idx] if isinstance(idx, int) and idx < len(this[last]) else '?'))
+    return bad, n
 
 
 def _alloc_flag_table(prog, chk, R, sim, mf):
